@@ -489,8 +489,29 @@ func init() {
 				r.Dist["sibling-inner-loops"]++
 			}
 		}
+		// the source of a range loop nested in a counter loop is INDEXED (`range user.Finance[fld]`, `range user[part].History`):
+		// the bracketed variable's text is substituted first, as in prints and comparisons; outside counter loops, or
+		// with an index that is not set, the written path is what is looked up
+		for _, loop := range []string{`{% for i := 0; i < 2; i++ %}`, `{% for i := 1; i >= 0; i-- %}`, ``} {
+			end := `{% endfor %}`
+			if loop == "" {
+				end = ""
+			}
+			for _, rng := range []string{`range user.Finance[fld]`, `range user[part].History`, `range user[part][fld]`, `range user.Finance[nokey]`, `range user.Finance[i]`, `range lst[i]`, `range user[i].History`,
+				`range user.Finance[fld] sep ,`, `range user.Finance[user]`} {
+				for _, body := range []string{`{%= k %}:{%= h.Cost %}{%= h.Comment %};`, `{%= k %}{% break if k == 1 %}`} {
+					src := loop + `[{% for k, h := ` + rng + ` %}` + body + `{% else %}E{% endfor %}]` + end + `|{%= user.Id %}`
+					c := &RCase{Tpls: []TplDef{{Key: "main", Src: src, KeepFmt: true}}, Meta: map[string]any{"indexed-range-source": rng, "loop": loop}}
+					c.Ops = []SOp{{Kind: "static", Name: "fld", Val: "History"}, {Kind: "static", Name: "part", Val: "Finance"}, {Kind: "strs", Name: "lst", Val: []string{"p", "q"}},
+						{Kind: "obj", Name: "user", Val: UserSpec{Id: "u", HasFinance: true, History: []History{{1, 1.5, "c0"}, {2, 2, "c1"}, {3, 3, "c2"}}}}, {Kind: "render", Key: "main"}, {Kind: "render", Key: "main"}}
+					cases = append(cases, c)
+					r.Dist["indexed-range-source"]++
+				}
+			}
+		}
 		runSessions(r, cases, outputDiffers)
 		loopVarNames(r)
+		indexedRangeSource(r)
 	}
 	props["C14"] = func(r *Run) {
 		r.Rule = "random loop nests to depth 3 mixing counter and range loops with break / continue / lazybreak, depth N from 1 to nesting+1, conditional forms, sibling loops; Go output vs Lean interpreter model"
@@ -831,6 +852,42 @@ func loopVarNames(r *Run) {
 			if bad != "" || outs[0].ErrStr() != outs[1].ErrStr() || !bytes.Equal(outs[0].Out, outs[1].Out) {
 				r.Violate(sig, "a loop whose variables are named "+names[0]+" / "+names[1]+" renders differently from the same loop with plain names",
 					map[string]any{"source": mk(names[0], names[1]), "plain_source": mk("kk", "vv"), "output": string(outs[0].Out), "plain_output": string(outs[1].Out), "error": outs[0].ErrStr(), "problem": bad})
+			}
+		}
+	}
+}
+
+// indexedRangeSource: a relation on the real engine alone (maps under StringAnyMapInspector are not in the model) —
+// inside a counter loop `range m[i]` ranges over the collection `m.<i>`: the output equals the concatenation of the
+// loops over `m.0`, `m.1`, … written out; each body once per element, the else branch only for the empty one.
+func indexedRangeSource(r *Run) {
+	data := map[string]any{"0": map[string]any{"p": 1}, "1": map[string]any{"q": 2}, "2": map[string]any{}, "x": map[string]any{"0": map[string]any{"z": 9}, "1": map[string]any{}}}
+	for _, tc := range []struct{ path, flat string; n int }{{"m[i]", "m.%d", 3}, {"m.x[i]", "m.x.%d", 2}, {"m[i]", "m.%d", 1}} {
+		for _, body := range []string{`{%= k %}={%= v %}`, `{%= k %}{% break %}`, `{%= v %}{% continue %}never`} {
+			inner := func(p string) string { return `[{% for k, v := range ` + p + ` %}` + body + `{% else %}E{% endfor %}]` }
+			indexed := fmt.Sprintf(`{%% for i := 0; i < %d; i++ %%}`, tc.n) + inner(tc.path) + `{% endfor %}`
+			flat := ""
+			for i := 0; i < tc.n; i++ {
+				flat += inner(fmt.Sprintf(tc.flat, i))
+			}
+			var outs [2]rendered
+			bad := ""
+			for x, src := range []string{indexed, flat} {
+				key, err, pan := regTpl(src, true)
+				if err != nil || pan != "" {
+					bad = fmt.Sprintf("Parse rejects %s: %v %s", src, err, pan)
+					break
+				}
+				ctx := dyntpl.NewCtx()
+				ctx.Set("m", data, inspector.StringAnyMapInspector{})
+				outs[x] = renderSafe(key, ctx)
+			}
+			sig := "indexed-range-source(map) " + tc.path + fmt.Sprintf(" n=%d body=", tc.n) + body
+			r.Count(sig, true)
+			r.Dist["indexed-range-source:map"]++
+			if bad != "" || outs[0].ErrStr() != outs[1].ErrStr() || !bytes.Equal(outs[0].Out, outs[1].Out) {
+				r.Violate(sig, "a range loop over "+tc.path+" inside a counter loop renders differently from the loops over the indexed collections written out",
+					map[string]any{"source": indexed, "flat_source": flat, "output": string(outs[0].Out), "flat_output": string(outs[1].Out), "error": outs[0].ErrStr(), "flat_error": outs[1].ErrStr(), "problem": bad})
 			}
 		}
 	}
